@@ -354,6 +354,13 @@ proof fn lemma_unchanged(a: Seq<TypeNode>, b: Seq<TypeNode>)
     }
 }
 proof fn lemma_same_graph_refl(a: Seq<TypeNode>) ensures same_graph(a, a) {}
+/// a step that changes nothing observable satisfies every component of the frame
+broadcast proof fn lemma_same_graph_frames(a: Seq<TypeNode>, b: Seq<TypeNode>)
+    requires #[trigger] same_graph(a, b), wf_forest(a), wf_forest(b),
+    ensures merges_from(a, b), cons_from(a, b), heads_from(a, b),
+{
+    lemma_unchanged(a, b);
+}
 proof fn lemma_unchanged_from_same_graph(a: Seq<TypeNode>, b: Seq<TypeNode>)
     requires same_graph(a, b),
     ensures merges_from(a, b),
@@ -745,6 +752,49 @@ spec fn s_brk(s: Statement, l: bool) -> bool decreases s {
     }
 }
 /// the deferred constraint a binary operator records on BOTH operand classes (each mentions the other)
+/// head-level operator tables (they only look at constructors and tuple lengths)
+spec fn add_heads(x: Type, y: Type) -> bool { shape_eq(x, y) && (x is Float || x is Int || x is Str || x is Tuple) }
+spec fn arith_heads(x: Type, y: Type) -> bool { shape_eq(x, y) && (x is Float || x is Int || x is Tuple) }
+spec fn cmp_heads(x: Type, y: Type) -> bool { (is_num(x) && is_num(y)) || (x is Str && y is Str) || (x is Tuple && shape_eq(x, y)) }
+spec fn div_heads(x: Type, y: Type) -> bool { (is_num(x) && is_num(y)) || (x is Tuple && is_num(y)) || (x is Tuple && shape_eq(x, y)) }
+/// the full (deep) operator tables imply the head-level ones
+broadcast proof fn lemma_add_heads(m: Seq<Type>, a: TyID, b: TyID)
+    ensures #[trigger] add_ok_all(m, a, b) ==> m[a.0 as int] is Unknown || m[b.0 as int] is Unknown || add_heads(m[a.0 as int], m[b.0 as int]),
+{ if add_ok_all(m, a, b) { assert(add_ok(m, a, b, 1)); } }
+broadcast proof fn lemma_arith_heads(m: Seq<Type>, a: TyID, b: TyID)
+    ensures #[trigger] arith_ok_all(m, a, b) ==> m[a.0 as int] is Unknown || m[b.0 as int] is Unknown || arith_heads(m[a.0 as int], m[b.0 as int]),
+{ if arith_ok_all(m, a, b) { assert(arith_ok(m, a, b, 1)); } }
+broadcast proof fn lemma_div_heads(m: Seq<Type>, a: TyID, b: TyID)
+    ensures #[trigger] div_ok_all(m, a, b) ==> m[a.0 as int] is Unknown || m[b.0 as int] is Unknown || div_heads(m[a.0 as int], m[b.0 as int]),
+{ if div_ok_all(m, a, b) { assert(div_ok(m, a, b, 1)); } }
+broadcast proof fn lemma_cmp_heads(m: Seq<Type>, a: TyID, b: TyID)
+    ensures #[trigger] cmp_ok_all(m, a, b) ==> m[a.0 as int] is Unknown || m[b.0 as int] is Unknown || cmp_heads(m[a.0 as int], m[b.0 as int]),
+{ if cmp_ok_all(m, a, b) { assert(cmp_ok(m, a, b, 1)); } }
+broadcast group group_heads { lemma_add_heads, lemma_arith_heads, lemma_div_heads, lemma_cmp_heads }
+/// the types that are already known contradict the deferred constraint `c` recorded on `a`
+/// (constructors and tuple lengths only; an Unknown operand decides nothing yet)
+spec fn con_violated(ts: Seq<TypeNode>, a: TyID, c: Constraint) -> bool {
+    let ta = ty_of(ts, a);
+    !(ta is Unknown) && match c {
+        Constraint::Add(b) => !(ty_of(ts, b) is Unknown) && !add_heads(ta, ty_of(ts, b)),
+        Constraint::Sub(b) => !(ty_of(ts, b) is Unknown) && !arith_heads(ta, ty_of(ts, b)),
+        Constraint::Mul(b) => !(ty_of(ts, b) is Unknown) && !arith_heads(ta, ty_of(ts, b)),
+        Constraint::DivTop(b) => !(ty_of(ts, b) is Unknown) && !div_heads(ta, ty_of(ts, b)),
+        Constraint::DivBot(b) => !(ty_of(ts, b) is Unknown) && !div_heads(ty_of(ts, b), ta),
+        Constraint::DivRes(_) => false,
+        Constraint::Equ(b) => !(ty_of(ts, b) is Unknown) && !shape_eq(ta, ty_of(ts, b)),
+        Constraint::Cmp(b) => !(ty_of(ts, b) is Unknown) && !cmp_heads(ta, ty_of(ts, b)),
+        Constraint::CmpEqu(b) => !(ty_of(ts, b) is Unknown) && (!shape_eq(ta, ty_of(ts, b)) || !cmp_heads(ta, ty_of(ts, b))),
+        Constraint::Neg => !(ta is Int || ta is Float),
+        Constraint::ConstantIndex(i, _) => !(ta is Tuple) || i >= ta->Tuple_0.len(),
+        Constraint::Field(_, _) => !(ta is Blob || ta is ExternBlob),
+        Constraint::Num => !(ta is Int || ta is Float),
+        Constraint::Enum => !(ta is Enum),
+        Constraint::Variant(_, _) => !(ta is Enum),
+        Constraint::TotalEnum(_) => !(ta is Enum),
+        Constraint::Variable => ta is Void,
+    }
+}
 /// what type checking an operator expression leaves behind in the constraint store (for every
 /// initial store: so a forgotten or misplaced add_constraint fails the clause). The ids are the
 /// operands' type ids, which the function does not return; they are existentially quantified.
@@ -908,6 +958,11 @@ impl<T> Help for TypeResult<T> {
 fn opaque_string() -> String { unimplemented!() }
 #[verifier::external_body]
 fn opaque_usize() -> usize { unimplemented!() }
+#[verifier::external_body]
+fn opaque_strings() -> Vec<String> { unimplemented!() }
+// std function without a vstd specification: Result::and keeps the first error, else the second result
+pub assume_specification<T, E, U> [ Result::<T, E>::and::<U> ] (a: Result<T, E>, b: Result<U, E>) -> (r: Result<U, E>)
+    ensures r == (match a { Ok(_) => b, Err(e) => Err::<U, E>(e) });
 macro_rules! format { ($($t:tt)*) => { opaque_string() }; }
 /// assumption A-derive-ord-tyid: derive(Ord) on TyID / tuples of TyID is a lawful total order
 #[verifier::external_body]
@@ -1942,14 +1997,89 @@ impl TypeChecker {
         }
 //@   endghost
 //@ end
-//@ fn sylt-compiler/src/typechecker.rs check_constraints
+//@ fn sylt-compiler/src/typechecker.rs div_res
 //@   in TypeChecker
 //@   mode assumed
 //@   ret r
 //@   spec
-        requires old(self).inv2(), old(self).valid(a),
+        requires old(self).inv2(), old(self).valid(a), old(self).valid(b),
         ensures final(self).inv2(), final(self).grows(old(self)),
 //@   endspec
+//@ end
+//@ fn sylt-compiler/src/typechecker.rs equ
+//@   in TypeChecker
+//@   props C03 C07
+//@   attr #[verifier::exec_allows_no_decreases_clause]
+//@   ret r
+//@   rewrite rule:R-wild
+//@- self.unify(span, ctx, a, b).map(|_| ())
+//@+ self.unify(span, ctx, a, b).map(|_w| ())
+//@   why Verus only accepts a variable as closure parameter; naming the ignored argument changes nothing
+//@   endrewrite
+//@   spec
+        requires old(self).inv2(), old(self).valid(a), old(self).valid(b), //# C07 equ.pre.ids_in_range
+        ensures final(self).inv2(), final(self).grows(old(self)), //# C02,C07 equ.keeps_invariant
+            head_clash(ty_of(old(self).types@, a), ty_of(old(self).types@, b))
+                && rep0(old(self).types@, a.0 as int) != rep0(old(self).types@, b.0 as int) ==> r is Err, //# C03 equ.clashing_types_rejected
+//@   endspec
+//@ end
+//@ fn sylt-compiler/src/typechecker.rs check_constraints
+//@   in TypeChecker
+//@   props C02 C03 C05 C07
+//@   attr #[verifier::exec_allows_no_decreases_clause]
+//@   attr #[verifier::loop_isolation(false)]
+//@   ret r
+//@   rewrite rule:R-tmp
+//@- for (constraint, original_span) in self.find_node(a).constraints.clone().iter() {
+//@+ let hoisted_tmp = self.find_node(a).constraints.clone(); for (constraint, original_span) in hoisted_tmp.iter() {
+//@   why Verus does not accept a temporary in the iterator expression of a for loop; hoisting the clone into a let evaluates the same expression once, before the loop, exactly as Rust does
+//@   endrewrite
+//@   rewrite rule:R-wild
+//@- self.unify(*span, ctx, *expected_ty, *actual_ty).map(|_| ())
+//@+ self.unify(*span, ctx, *expected_ty, *actual_ty).map(|_w| ())
+//@   why Verus only accepts a variable as closure parameter; naming the ignored argument changes nothing
+//@   endrewrite
+//@   rewrite rule:R-wild
+//@- self.unify(span, ctx, *v_a, *v_b).map(|_| ())
+//@+ self.unify(span, ctx, *v_a, *v_b).map(|_w| ())
+//@   why as above
+//@   endrewrite
+//@   rewrite rule:R-opaque
+//@- let missing = vars
+//@-     .iter()
+//@-     .cloned()
+//@-     .filter(|var| !enum_vars.contains_key(var))
+//@-     .collect::<Vec<_>>();
+//@+ let missing: Vec<String> = opaque_strings();
+//@   why iterator adapters with closures are outside Verus; the list (variants of the case that the enum lacks) is replaced by an uninterpreted list, so whether a TotalEnum constraint on an enum type is accepted is NOT decided here (the arm changes no state)
+//@   endrewrite
+//@   rewrite rule:R-opaque
+//@- let extra = enum_vars
+//@-     .iter()
+//@-     .map(|(var, _)| var.clone())
+//@-     .filter(|var| !vars.contains(var))
+//@-     .collect::<Vec<_>>();
+//@+ let extra: Vec<String> = opaque_strings();
+//@   why as above (variants of the enum that the case does not list)
+//@   endrewrite
+//@   spec
+        requires old(self).inv2(), old(self).valid(a), //# C07 check_constraints.pre.id_in_range
+        ensures final(self).inv2(), final(self).grows(old(self)), //# C02,C07 check_constraints.keeps_invariant
+            forall|c: Constraint| #[trigger] cons_of(old(self).types@, a.0 as int).contains(c) && con_violated(old(self).types@, a, c) ==> r is Err, //# C03,C05 check_constraints.a_recorded_constraint_that_the_known_types_violate_is_rejected
+//@   endspec
+//@   ghost entry
+        let ghost ts0 = self.types@;
+        broadcast use lemma_same_graph_frames, group_heads;
+        proof { axiom_constraint_key_order(); axiom_string_key_order(); lemma_rep0_props(ts0, a.0 as int); lemma_heads_refl(ts0); }
+//@   endghost
+//@   loop 1 binder it
+            invariant
+                self.inv2(), self.grows(old(self)), heads_kept(ts0, self.types@), self.valid(a), //# C02,C07 check_constraints.loop1.aux1
+                vstd::std_specs::btree::key_obeys_cmp_spec::<Constraint>(), vstd::std_specs::btree::key_obeys_cmp_spec::<String>(), //# C07 check_constraints.loop1.aux2
+                hoisted_tmp@.dom() == cons_of(ts0, a.0 as int), cons_in_range(hoisted_tmp@, ts0.len() as int), //# C02,C07 check_constraints.loop1.aux3
+                forall|j: int| 0 <= j < it.seq().len() ==> hoisted_tmp@.dom().contains(*(#[trigger] it.seq()[j]).0), //# - check_constraints.loop1.aux4
+                forall|j: int| 0 <= j < it.index@ ==> !con_violated(ts0, a, *(#[trigger] it.seq()[j]).0), //# C03,C05 check_constraints.loop.every_visited_constraint_was_checked
+//@   endloop
 //@ end
 //@ fn sylt-compiler/src/typechecker.rs find_node_mut
 //@   in TypeChecker
@@ -2145,6 +2275,7 @@ impl TypeChecker {
 //@ fn sylt-compiler/src/typechecker.rs unify
 //@   in TypeChecker
 //@   props C02 C03 C04 C05 C07
+//@   attr #[verifier::exec_allows_no_decreases_clause]
 //@   ret r
 //@   spec
         requires old(self).inv2(), old(self).valid(a), old(self).valid(b), //# C02,C07 unify.spec.aux1
@@ -2188,6 +2319,7 @@ impl TypeChecker {
 //@ fn sylt-compiler/src/typechecker.rs constant_index
 //@   in TypeChecker
 //@   props C05 C07
+//@   attr #[verifier::exec_allows_no_decreases_clause]
 //@   ret r
 //@   rewrite rule:R-wild
 //@- Some(ty) => self.unify(span, ctx, *ty, ret).map(|_| ()),
